@@ -81,10 +81,11 @@ def patched(obj, name, value):
         setattr(obj, name, old)
 
 
-def verdict_root_stub(c, success="true", prec="zero", log=None):
+def verdict_root_stub(c, success="true", prec="zero", log=None, max_fail=2):
     """contract stub for optimizer.nonlinear_roots: arbitrary root K, success per mode, prec >= 0.
-    success: 'true' | 'false' | 'fork' ; prec: 'zero' | 'sym' """
-    state = dict(n=0)
+    success: 'true' | 'false' | 'fork' ; prec: 'zero' | 'sym'.  max_fail bounds the number of solves that may come
+    back failed (success False or prec >= tol) on forking paths (unwinding bound)."""
+    state = dict(n=0, fails=0)
 
     def stub(f, x0, jac=None, tol=None, verbose=False, maxiter=200, use_scipy=True, additional_args=tuple(),
              additional_kwargs=dict(), var_bounds=None):
@@ -94,24 +95,34 @@ def verdict_root_stub(c, success="true", prec="zero", log=None):
         n = int(np.prod(shape)) if shape else 1
         K = c.uf("Kroot", [], n, fresh=True)
         root = c.array(K).reshape(shape)
+        exhausted = state["fails"] >= max_fail
         if success == "true":
             ok = True
         elif success == "false":
             ok = False
         else:
-            ok = bool(c.real("succ%d" % i) > 0)
+            sv = c.real("succ%d" % i)
+            if exhausted:
+                c.assume(sv > 0)        # unwinding bound on the number of failing solves
+            ok = bool(sv > 0)
         if prec == "zero":
             p = 0.0
+            good = ok
         else:
             p = c.real("prec%d" % i)
             c.assume(p >= 0)
+            if exhausted and success != "false":
+                c.assume(p < tol)
+            good = ok and bool(p < tol)
+        if not good:
+            state["fails"] += 1
         if log is not None:
             log.append(dict(i=i, success=ok, prec=p, tol=tol, root=root))
         return root, (ok, 0, 0, 0, p)
     return stub
 
 
-def ctrl_stub(c, integrator, log=None, lo=0.2, hi=2.0, max_redo=None):
+def ctrl_stub(c, integrator, log=None, lo=0.2, hi=2.0, max_redo=None, fixed=None):
     """contract stub for integrator.update_timestep: returns (corr*dT, corr < 0.81) for an arbitrary corr in (lo, hi).
     max_redo bounds the number of rejections the stub may issue in total (unwinding bound)."""
     state = dict(n=0, redo=0)
@@ -119,6 +130,11 @@ def ctrl_stub(c, integrator, log=None, lo=0.2, hi=2.0, max_redo=None):
     def stub(*a, **kw):
         i = state["n"]
         state["n"] += 1
+        if fixed is not None:
+            dT = integrator.solver_dict["timestep"]
+            if log is not None:
+                log.append(dict(i=i, corr=fixed, dT=dT, redo=False))
+            return fixed * dT, False
         corr = c.real("corr%d" % i)
         c.assume(corr > lo)
         c.assume(corr < hi)
@@ -135,11 +151,44 @@ def ctrl_stub(c, integrator, log=None, lo=0.2, hi=2.0, max_redo=None):
 
 
 def run(fn, *a, **kw):
-    """('ok', value) or ('exc', exception) - exceptions raised by the code under test are path results"""
+    """('ok', value) or ('exc', exception) - exceptions raised by the code under test are path results.
+    ('hang', None) when the call spends more than HANG_S seconds outside the solver (non-termination guard)."""
+    return run_bounded(HANG_S, fn, *a, **kw)
+
+
+HANG_S = 40.0
+
+
+def run_bounded(limit, fn, *a, **kw):
+    import signal
+    import time
+    from srx import core
+    state = dict(t0=time.time(), s0=core.IN_SOLVER[1])
+
+    def handler(signum, frame):
+        spent = (time.time() - state["t0"]) - (core.IN_SOLVER[1] - state["s0"])
+        if core.IN_SOLVER[0] > 0 or spent < limit:
+            signal.setitimer(signal.ITIMER_REAL, max(0.5, min(limit, limit - spent)))
+            return
+        raise core.Hang("no return after %.1fs outside the solver" % spent)
+
+    nested = signal.getsignal(signal.SIGALRM) not in (signal.SIG_DFL, signal.SIG_IGN, None)
+    if nested:       # an outer run() already guards this call
+        try:
+            return "ok", fn(*a, **kw)
+        except Exception as e:
+            return "exc", e
+    old = signal.signal(signal.SIGALRM, handler)
+    signal.setitimer(signal.ITIMER_REAL, limit)
     try:
         return "ok", fn(*a, **kw)
     except Exception as e:
         return "exc", e
+    except core.Hang:
+        return "hang", None
+    finally:
+        signal.setitimer(signal.ITIMER_REAL, 0)
+        signal.signal(signal.SIGALRM, old)
 
 
 def sgn(c, x):
